@@ -83,3 +83,41 @@ Definition race2 (quote : bytes -> bytes) (unquote : bytes -> option bytes) (st 
   else
     let '(s1, r2) := get_or_create quote unquote st t2 true in
     let '(s2, r1) := get_or_create quote unquote s1 t1 true in (s2, r1, r2).
+
+(* ---- look-up without creation (GetJournal), Delete, and histories over the three operations ---- *)
+Definition find_src (st : tstate) (src : nat) : option desc :=
+  match find (fun e : bytes * desc => Nat.eqb (d_src (snd e)) src) (t_map st) with Some e => Some (snd e) | None => None end.
+(* delete(ims.tmap, key) *)
+Definition t_delete_key (st : tstate) (key : bytes) : tstate :=
+  {| t_map := filter (fun e : bytes * desc => negb (bytes_eqb (fst e) key)) (t_map st); t_next := t_next st |}.
+
+Inductive hop :=
+| HCall (text : bytes) (savefails : bool)    (* GetOrCreateJournal(text) *)
+| HGet (text : bytes)                        (* GetJournal(text): no creation *)
+| HDel (src : nat).                          (* Delete(src) of an exclusively locked partition *)
+
+Section Ops.
+  Variable quote : bytes -> bytes.
+  Variable unquote : bytes -> option bytes.
+
+  (* Delete: td := smap[src]; delete(tmap, td.tags.Line()); delete(smap, src).  The answer GSrc src [] stands for nil *)
+  Definition t_delete (st : tstate) (src : nat) : tstate * goc_result :=
+    match find_src st src with
+    | Some d => (t_delete_key st (line quote (d_tags d)), GSrc src [])
+    | None => (st, GNotFound)
+    end.
+
+  Definition step_op (st : tstate) (op : hop) : tstate * goc_result :=
+    match op with
+    | HCall t f => goc_fault quote unquote st t f
+    | HGet t => get_or_create quote unquote st t false
+    | HDel s => t_delete st s
+    end.
+
+  Fixpoint run_ops (st : tstate) (ops : list hop) : tstate * list goc_result :=
+    match ops with
+    | [] => (st, [])
+    | op :: tl => let '(st1, r) := step_op st op in
+                  let '(st2, rs) := run_ops st1 tl in (st2, r :: rs)
+    end.
+End Ops.
